@@ -1,35 +1,40 @@
-/* C13 contracts: AVX2 dot / sparse / dense 12-wide matrix kernels equal the product mod p.
- * Layer L2: callers are checked against the L1 contracts of mult_avx / add_avx / mult_avx_72 / reduce_avx_96_64
- * (enforced against the real bodies in C02; here in their caller-facing form over the uninterpreted field product MUL). */
+/* C14 contracts: AVX-512 dot / sparse / dense matrix kernels equal the product mod p for each of the two interleaved states
+ * (lanes 0-3 state A, lanes 4-7 state B; coefficients broadcast to both halves).
+ * Layer L2: callers are checked against the L1 contracts of mult_avx512 / add_avx512 / add_avx512_b_c / mult_avx512_72 / reduce_avx512_96_64
+ * (enforced against the real bodies in C11; here in their caller-facing form over the uninterpreted field product MUL). */
 #include "spec.h"
 #define VF_SENTINEL __CPROVER_assert(0, "vf_sentinel: harness reaches the point after the call")
-#define V4(p) __CPROVER_is_fresh(p, 32)
+#define V4(p) __CPROVER_is_fresh(p, 64)
 #define VN(p, n) __CPROVER_is_fresh(p, 8 * (n))
 #ifdef VF_LANE   /* lane-independent kernels: one unit per lane, callee contracts restricted to the same lane */
 #define ALL4(F) (F(VF_LANE))
 #else
-#define ALL4(F) (F(0) && F(1) && F(2) && F(3))
+#define ALL4(F) (F(0) && F(1) && F(2) && F(3) && F(4) && F(5) && F(6) && F(7))
 #endif
 
-/* ---------------- caller-facing L1 contracts (assumed here, see C02 for the enforced form) */
+/* ---------------- caller-facing L1 contracts (assumed here, see C11 for the enforced form) */
 #define P_mult(i) (canon(c[i]) == MUL(a[i], b[i]) && MULC(a[i], b[i]))
-void k_mult_avx(u64 *c, const u64 *a, const u64 *b)
+void k_mult_avx512(u64 *c, const u64 *a, const u64 *b)
   __CPROVER_requires(V4(c) && V4(a) && V4(b)) __CPROVER_assigns(__CPROVER_object_whole(c)) __CPROVER_ensures(ALL4(P_mult));
 #define P_add(i) (canon(c[i]) == addmod(canon(a[i]), canon(b[i])))
-void k_add_avx(u64 *c, const u64 *a, const u64 *b)
+void k_add_avx512(u64 *c, const u64 *a, const u64 *b)
   __CPROVER_requires(V4(c) && V4(a) && V4(b)) __CPROVER_assigns(__CPROVER_object_whole(c)) __CPROVER_ensures(ALL4(P_add));
 /* 72-bit product a*b (b < 2^8) as two uninterpreted halves; the high half is < 2^8 */
 u64 __CPROVER_uninterpreted_ph8(u64, u64);
 u64 __CPROVER_uninterpreted_pl8(u64, u64);
 #define PH8(a, b) __CPROVER_uninterpreted_ph8(a, b)
 #define PL8(a, b) __CPROVER_uninterpreted_pl8(a, b)
+/* documented requirement of the _b_c adder: canonical second operand.  In the caller units this is an ASSERTION at every call site. */
+#define R_b_c(i) (b[i] < GP)
+void k_add_avx512_b_c(u64 *c, const u64 *a, const u64 *b)
+  __CPROVER_requires(V4(c) && V4(a) && V4(b) && ALL4(R_b_c)) __CPROVER_assigns(__CPROVER_object_whole(c)) __CPROVER_ensures(ALL4(P_add));
 #define R_b8(i) (b[i] < 256)
 #define P_m72(i) (ch[i] == PH8(a[i], b[i]) && cl[i] == PL8(a[i], b[i]) && ch[i] < 256)
-void k_mult_avx_72(u64 *ch, u64 *cl, const u64 *a, const u64 *b)
+void k_mult_avx512_72(u64 *ch, u64 *cl, const u64 *a, const u64 *b)
   __CPROVER_requires(V4(ch) && V4(cl) && V4(a) && V4(b) && ALL4(R_b8)) __CPROVER_assigns(__CPROVER_object_whole(ch), __CPROVER_object_whole(cl)) __CPROVER_ensures(ALL4(P_m72));
 #define R_ch32(i) (a[i] <= 0xFFFFFFFFUL)
 #define P_red(i) repr_of_T(c[i], redT(a[i], b[i]))
-void k_reduce_avx_96_64(u64 *c, const u64 *a, const u64 *b)
+void k_reduce_avx512_96_64(u64 *c, const u64 *a, const u64 *b)
   __CPROVER_requires(V4(c) && V4(a) && V4(b) && ALL4(R_ch32)) __CPROVER_assigns(__CPROVER_object_whole(c)) __CPROVER_ensures(ALL4(P_red));
 
 /* ---------------- spec terms */
@@ -63,50 +68,49 @@ u64 __CPROVER_uninterpreted_row_DOT8(u64, u64, u64, u64, u64, u64, u64, u64, u64
 #else
 #define ROWX(D, p0, p1, p2, p3, q0, q1, q2, q3, r0, r1, r2, r3, R) HS4(D(p0, q0, r0, R, 0), D(p1, q1, r1, R, 1), D(p2, q2, r2, R, 2), D(p3, q3, r3, R, 3))
 #endif
-#define ROW(D, x0, x1, x2, M, r) ROWX(D, x0[0], x0[1], x0[2], x0[3], x1[0], x1[1], x1[2], x1[3], x2[0], x2[1], x2[2], x2[3], (M) + 12 * (r))
 
 #define STATE_REQ V4(a0) && V4(a1) && V4(a2)
-/* ---------------- spmv / dot */
-#define P_spmv(i) (canon(c[i]) == DOT3(a0[i], a1[i], a2[i], b, i))
+#define L4(i) ((i) & 3)          /* lane within its state */
+#define S4(i) (((i) >> 2) << 2)  /* first lane of the state of lane i */
+/* ---------------- spmv / dot: lane i uses coefficient column i mod 4 */
+#define P_spmv(i) (canon(c[i]) == DOT3(a0[i], a1[i], a2[i], b, L4(i)))
 #define SPMV_C(name, POST, EXTRA) void k_##name(u64 *c, const u64 *a0, const u64 *a1, const u64 *a2, const u64 *b) \
   __CPROVER_requires(V4(c) && STATE_REQ && VN(b, 12) EXTRA) __CPROVER_assigns(__CPROVER_object_whole(c)) __CPROVER_ensures(ALL4(POST)); \
   void h_k_##name(void) { u64 *c, *a0, *a1, *a2, *b; k_##name(c, a0, a1, a2, b); VF_SENTINEL; }
-SPMV_C(spmv_avx_4x12, P_spmv, )
-SPMV_C(spmv_avx_4x12_a, P_spmv, )
+SPMV_C(spmv_avx512_4x12, P_spmv, )
 #define B8_12 && b[0] < 256 && b[1] < 256 && b[2] < 256 && b[3] < 256 && b[4] < 256 && b[5] < 256 && b[6] < 256 && b[7] < 256 && b[8] < 256 && b[9] < 256 && b[10] < 256 && b[11] < 256
-#define P_spmv8(i) (canon(c[i]) == DOT8(a0[i], a1[i], a2[i], b, i))
-SPMV_C(spmv_avx_4x12_8, P_spmv8, B8_12)
+#define P_spmv8(i) (canon(c[i]) == DOT8(a0[i], a1[i], a2[i], b, L4(i)))
+SPMV_C(spmv_avx512_4x12_8, P_spmv8, B8_12)
 
-#define DOTPOST(r) (canon(r) == HS4(DOT3(a0[0], a1[0], a2[0], b, 0), DOT3(a0[1], a1[1], a2[1], b, 1), DOT3(a0[2], a1[2], a2[2], b, 2), DOT3(a0[3], a1[3], a2[3], b, 3)))
-#define DOT_C(name) u64 k_##name(const u64 *a0, const u64 *a1, const u64 *a2, const u64 *b) \
-  __CPROVER_requires(STATE_REQ && VN(b, 12)) __CPROVER_assigns() __CPROVER_ensures(DOTPOST(__CPROVER_return_value)); \
-  void h_k_##name(void) { u64 *a0, *a1, *a2, *b; k_##name(a0, a1, a2, b); VF_SENTINEL; }
-DOT_C(dot_avx)
-DOT_C(dot_avx_a)
+#define DOTS(s) HS4(DOT3(a0[s], a1[s], a2[s], b, 0), DOT3(a0[s + 1], a1[s + 1], a2[s + 1], b, 1), DOT3(a0[s + 2], a1[s + 2], a2[s + 2], b, 2), DOT3(a0[s + 3], a1[s + 3], a2[s + 3], b, 3))
+void k_dot_avx512(u64 *c2, const u64 *a0, const u64 *a1, const u64 *a2, const u64 *b)
+  __CPROVER_requires(VN(c2, 2) && STATE_REQ && VN(b, 12)) __CPROVER_assigns(__CPROVER_object_whole(c2))
+  __CPROVER_ensures(canon(c2[0]) == DOTS(0) && canon(c2[1]) == DOTS(4));
+void h_k_dot_avx512(void) { u64 *c, *a0, *a1, *a2, *b; k_dot_avx512(c, a0, a1, a2, b); VF_SENTINEL; }
 
-/* ---------------- 4x12 block product: lane i of the result is row i */
+/* ---------------- 4x12 block product: lane i is row (i mod 4) of the state of lane i */
 static inline _Bool all_lt256(const u64 *M, unsigned n) { _Bool ok = 1; for (unsigned k = 0; k < n; k++) ok = ok && M[k] < 256; return ok; }
-#define P_mm4(i) (canon(c[i]) == ROW(DOT3, a0, a1, a2, b, i))
+#define SROW(D, x0, x1, x2, M, i, r) ROWX(D, x0[S4(i)], x0[S4(i) + 1], x0[S4(i) + 2], x0[S4(i) + 3], x1[S4(i)], x1[S4(i) + 1], x1[S4(i) + 2], x1[S4(i) + 3], \
+                                       x2[S4(i)], x2[S4(i) + 1], x2[S4(i) + 2], x2[S4(i) + 3], (M) + 12 * (r))
+#define P_mm4(i) (canon(c[i]) == SROW(DOT3, a0, a1, a2, b, i, L4(i)))
 #define MM4_C(name, POST, EXTRA) void k_##name(u64 *c, const u64 *a0, const u64 *a1, const u64 *a2, const u64 *b) \
   __CPROVER_requires(V4(c) && STATE_REQ && VN(b, 48) EXTRA) __CPROVER_assigns(__CPROVER_object_whole(c)) __CPROVER_ensures(ALL4(POST)); \
   void h_k_##name(void) { u64 *c, *a0, *a1, *a2, *b; k_##name(c, a0, a1, a2, b); VF_SENTINEL; }
-MM4_C(mmult_avx_4x12, P_mm4, )
-MM4_C(mmult_avx_4x12_a, P_mm4, )
-#define P_mm4_8(i) (canon(c[i]) == ROW(DOT8, a0, a1, a2, b, i))
-MM4_C(mmult_avx_4x12_8, P_mm4_8, && all_lt256(b, 48))
+MM4_C(mmult_avx512_4x12, P_mm4, )
+#define P_mm4_8(i) (canon(c[i]) == SROW(DOT8, a0, a1, a2, b, i, L4(i)))
+MM4_C(mmult_avx512_4x12_8, P_mm4_8, && all_lt256(b, 48))
 
-/* ---------------- 12x12 matrix-vector product, in place on the three registers: new a_k[i] is row 4k+i over the OLD state */
-#define O0 __CPROVER_old(a0)
+/* ---------------- 12x12 product in place: new a_k[i] is row 4k + (i mod 4) over the OLD state of lane i */
 #define OL(x) __CPROVER_old(x)
-#define OLDROW(D, M, r) ROWX(D, OL(a0[0]), OL(a0[1]), OL(a0[2]), OL(a0[3]), OL(a1[0]), OL(a1[1]), OL(a1[2]), OL(a1[3]), OL(a2[0]), OL(a2[1]), OL(a2[2]), OL(a2[3]), (M) + 12 * (r))
-#define P_mm(i) (canon(a0[i]) == OLDROW(DOT3, M, i) && canon(a1[i]) == OLDROW(DOT3, M, 4 + (i)) && canon(a2[i]) == OLDROW(DOT3, M, 8 + (i)))
-#define P_mm_8(i) (canon(a0[i]) == OLDROW(DOT8, M, i) && canon(a1[i]) == OLDROW(DOT8, M, 4 + (i)) && canon(a2[i]) == OLDROW(DOT8, M, 8 + (i)))
+#define OLDSROW(D, M, i, r) ROWX(D, OL(a0[S4(i)]), OL(a0[S4(i) + 1]), OL(a0[S4(i) + 2]), OL(a0[S4(i) + 3]), OL(a1[S4(i)]), OL(a1[S4(i) + 1]), OL(a1[S4(i) + 2]), OL(a1[S4(i) + 3]), \
+                                 OL(a2[S4(i)]), OL(a2[S4(i) + 1]), OL(a2[S4(i) + 2]), OL(a2[S4(i) + 3]), (M) + 12 * (r))
+#define P_mm(i) (canon(a0[i]) == OLDSROW(DOT3, M, i, L4(i)) && canon(a1[i]) == OLDSROW(DOT3, M, i, 4 + L4(i)) && canon(a2[i]) == OLDSROW(DOT3, M, i, 8 + L4(i)))
+#define P_mm_8(i) (canon(a0[i]) == OLDSROW(DOT8, M, i, L4(i)) && canon(a1[i]) == OLDSROW(DOT8, M, i, 4 + L4(i)) && canon(a2[i]) == OLDSROW(DOT8, M, i, 8 + L4(i)))
 #define MM_C(name, POST, EXTRA) void k_##name(u64 *a0, u64 *a1, u64 *a2, const u64 *M) \
   __CPROVER_requires(STATE_REQ && VN(M, 144) EXTRA) __CPROVER_assigns(__CPROVER_object_whole(a0), __CPROVER_object_whole(a1), __CPROVER_object_whole(a2)) __CPROVER_ensures(ALL4(POST)); \
   void h_k_##name(void) { u64 *a0, *a1, *a2, *M; k_##name(a0, a1, a2, M); VF_SENTINEL; }
-MM_C(mmult_avx, P_mm, )
-MM_C(mmult_avx_a, P_mm, )
-MM_C(mmult_avx_8, P_mm_8, && all_lt256(M, 144))
+MM_C(mmult_avx512, P_mm, )
+MM_C(mmult_avx512_8, P_mm_8, && all_lt256(M, 144))
 
 u64 vf_nondet_u64(void) { u64 x; return x; }
 _Bool vf_nondet_bool(void) { _Bool x; return x; }
